@@ -99,6 +99,25 @@ def classify_exception(e):
             getattr(e, "url", None))
 
 
+OVERRIDE_KINDS = ["list", "list", "tuple", "iterator", "generator"]
+_OV_N = [0]
+
+
+def as_override_container(specs):
+    """The override list as a list, a tuple, an iterator or a generator:
+    'overrides' is an iterable of specifier strings."""
+    _OV_N[0] += 1
+    kind = OVERRIDE_KINDS[_OV_N[0] % len(OVERRIDE_KINDS)]
+    specs = list(specs)
+    if kind == "tuple":
+        return tuple(specs)
+    if kind == "iterator":
+        return iter(specs)
+    if kind == "generator":
+        return (s for s in specs)
+    return specs
+
+
 def load_text(schema, text, overrides=(), url=None, want_objects=False):
     """Load *text* with ZConfig.loadConfigFile.
 
@@ -107,11 +126,13 @@ def load_text(schema, text, overrides=(), url=None, want_objects=False):
     """
     import ZConfig
     import zcverif_dt.fam as _fam
+    overrides = list(overrides)
     _fam.CURRENT[0] = ("text", schema, text, overrides)
     try:
         if overrides:
-            r = ZConfig.loadConfigFile(schema, io.StringIO(text), url,
-                                       overrides=overrides)
+            r = ZConfig.loadConfigFile(
+                schema, io.StringIO(text), url,
+                overrides=as_override_container(overrides))
         else:
             r = ZConfig.loadConfigFile(schema, io.StringIO(text), url)
     except Exception as e:  # noqa
